@@ -209,18 +209,21 @@ func c15wCanon(m map[string]any) string {
 type c15wScenario struct {
 	Name    string
 	Writers [][]int
-	// Thorough scenarios run in the thorough tier only.
-	Thorough bool
+	// PreQuick and PreThorough are the preemption bounds of the two tiers; a
+	// negative bound means that the scenario does not run in that tier.
+	PreQuick, PreThorough int
 }
 
 var c15wScenarios = []c15wScenario{
-	{Name: "2w-1+1", Writers: [][]int{{0}, {1}}},
-	{Name: "2w-2+1", Writers: [][]int{{0, 2}, {1}}},
-	{Name: "2w-2+2", Writers: [][]int{{0, 2}, {1, 3}}},
-	{Name: "3w-1+1+1", Writers: [][]int{{0}, {1}, {2}}, Thorough: true},
-	{Name: "3w-2+1+1", Writers: [][]int{{0, 3}, {1}, {2}}, Thorough: true},
-	{Name: "3w-2+2+1", Writers: [][]int{{0, 3}, {1, 4}, {2}}, Thorough: true},
-	{Name: "3w-2+2+2", Writers: [][]int{{0, 3}, {1, 4}, {2, 5}}, Thorough: true},
+	{Name: "2w-1+1", Writers: [][]int{{0}, {1}}, PreQuick: 2, PreThorough: 3},
+	{Name: "2w-2+1", Writers: [][]int{{0, 2}, {1}}, PreQuick: 2, PreThorough: 3},
+	{Name: "2w-2+2", Writers: [][]int{{0, 2}, {1, 3}}, PreQuick: 2, PreThorough: 3},
+	{Name: "3w-1+1+1", Writers: [][]int{{0}, {1}, {2}}, PreQuick: -1, PreThorough: 3},
+	{Name: "3w-2+1+1", Writers: [][]int{{0, 3}, {1}, {2}}, PreQuick: -1, PreThorough: 3},
+	// The largest shapes are explored with one preemption less (measured: 2.4
+	// and >2.9 million executions with 3).
+	{Name: "3w-2+2+1", Writers: [][]int{{0, 3}, {1, 4}, {2}}, PreQuick: -1, PreThorough: 2},
+	{Name: "3w-2+2+2", Writers: [][]int{{0, 3}, {1, 4}, {2, 5}}, PreQuick: -1, PreThorough: 2},
 }
 
 type c15wEnv struct {
@@ -390,15 +393,14 @@ func TestVerifC15File(t *testing.T) {
 	}
 	if r.ShouldRun() {
 		shard, nshards := r.NShards()
-		pre := vrt.Pick(r, 2, 3)
-		r.Bound("file_preemptions", pre)
 		var names []string
 		ji := 0
 		for si, sc := range c15wScenarios {
-			if sc.Thorough && !r.Thorough() {
+			pre := vrt.Pick(r, sc.PreQuick, sc.PreThorough)
+			if pre < 0 {
 				continue
 			}
-			names = append(names, sc.Name)
+			names = append(names, fmt.Sprintf("%s(preemptions<=%d)", sc.Name, pre))
 			mine := ji%nshards == shard
 			ji++
 			if !mine {
@@ -429,7 +431,7 @@ func TestVerifC15File(t *testing.T) {
 
 					return found < 3
 				})
-			r.Note("file scenario %s: executions=%d points=%d max_trace=%d stopped=%v", sc.Name, st.Executions, st.Points, st.MaxTrace, st.Stopped)
+			r.Note("file scenario %s preemptions<=%d: executions=%d points=%d max_trace=%d stopped=%v", sc.Name, pre, st.Executions, st.Points, st.MaxTrace, st.Stopped)
 			if st.Stopped {
 				r.NotExhaustive("file scenario " + sc.Name + " stopped by the internal deadline")
 			}
